@@ -169,6 +169,19 @@ def locate_item(src, masked, kind, name, nth=1):
     return start, body_close + 1, body_open
 
 
+def ws_pattern(text):
+    """regex that matches `text` up to the amount of whitespace between its tokens (a reformatted repository still matches)"""
+    chunks = text.split()
+    if not chunks:
+        return re.compile(re.escape(text))
+    out = re.escape(chunks[0])
+    for prev, c in zip(chunks, chunks[1:]):
+        # between two identifier characters whitespace is mandatory, next to punctuation it is optional
+        wordy = (prev[-1].isalnum() or prev[-1] == '_') and (c[0].isalnum() or c[0] == '_')
+        out += (r'\s+' if wordy else r'\s*') + re.escape(c)
+    return re.compile(out)
+
+
 LOOP_KW = re.compile(r'\b(while|for|loop)\b')
 
 
@@ -427,14 +440,15 @@ def emit_extract(gen, ex, repo_root, unit):
         if b.kind == 'rewrite':
             before, after = b.text(), '\n'.join(b.with_lines or [])
             cnt = int(parse_opts(b.arg.split()).get('count', 1))
-            occ = [m.start() for m in re.finditer(re.escape(before), item)]
+            found = [m for m in ws_pattern(before).finditer(item)]
+            occ = [m.start() for m in found]
             if bodyless and len(occ) == 0:
                 continue  # a rewrite of body text: the body of an assumed function is not copied
             if len(occ) != cnt:
                 raise ExtractError('rewrite at %s:%d matches %d times (expected %d) in fn %s: %r'
                                    % (unit, b.lineno, len(occ), cnt, ex.name, before[:60]))
-            for p in occ:
-                replaces.append((p, p + len(before), before, after))
+            for m in found:
+                replaces.append((m.start(), m.end(), m.group(0), after))
             gen.rewrites.append({'item': ex.name, 'before': before, 'after': after, 'count': cnt,
                                  'at': '%s:%d' % (ex.file, line_of(src, start + occ[0]))})
         elif bodyless and b.kind in ('loop', 'before', 'after', 'tail', 'body'):
@@ -464,7 +478,7 @@ def emit_extract(gen, ex, repo_root, unit):
                         occ.append(off + (len(ln_) - len(ln_.lstrip())))
                     off += len(ln_) + 1
             else:
-                occ = [m.start() for m in re.finditer(re.escape(anchor), item)]
+                occ = [m.start() for m in ws_pattern(anchor).finditer(item)]
             if ma is None and len(occ) != 1:
                 raise ExtractError('lost anchor: %r occurs %d times in fn %s (%s:%d)'
                                    % (anchor, len(occ), ex.name, unit, b.lineno))
